@@ -95,3 +95,32 @@ Theorem minimal_meta_contains_requested :
     mwf m -> tiles <> [] -> (forall x y l, In (x, y, l) tiles -> l = z /\ 0 <= x /\ 0 <= y) ->
     exists mt, minimal_meta_tile m tiles = Some mt /\ forall c, In c tiles -> In c (mt_tiles mt).
 Proof. exact minimal_meta_contains_lemma. Qed.
+
+(* Each side of the bbox requested for a meta tile is either the grid border or lies at least the buffer beyond
+   every tile of the pattern. *)
+Theorem requested_bbox_covers_tiles :
+  forall m x y z,
+    mwf m -> valid_level (mg_grid m) z = true ->
+    let mt := meta_tile m x y z in
+    let g := mg_grid m in
+    let '(minx, miny, maxx, maxy) := mt_bbox mt in
+    forall cx cy cz crop, In (Some (cx, cy, cz), crop) (mt_pattern mt) ->
+      let '(tx0, ty0, tx1, ty1) := tile_bbox g cx cy cz in
+      (minx = gx0 g \/ minx + mbuf m * res_at g z <= tx0) /\ (miny = gy0 g \/ miny + mbuf m * res_at g z <= ty0) /\
+      (maxx = gx1 g \/ tx1 + mbuf m * res_at g z <= maxx) /\ (maxy = gy1 g \/ ty1 + mbuf m * res_at g z <= maxy).
+Proof. exact requested_bbox_sides. Qed.
+
+(* No pixel one pixel or more inside the grid extent is left as background: if pixel (j, k) of a tile cut out of
+   a meta tile (any meta size, buffer, border position, extent not a multiple of the resolution) is padding of
+   TileSplitter.get_tile, then its ground rectangle does not lie within the grid extent shrunk by one pixel. *)
+Theorem no_background_inside_extent :
+  forall m x y z cx cy cz px py j k,
+    mwf m -> valid_level (mg_grid m) z = true ->
+    In (Some (cx, cy, cz), (px, py)) (mt_pattern (meta_tile m x y z)) ->
+    0 <= j < tw (mg_grid m) -> 0 <= k < th (mg_grid m) ->
+    tile_pixel_src (px, py) (tw (mg_grid m), th (mg_grid m)) (mt_size (meta_tile m x y z)) j k = None ->
+    let g := mg_grid m in let r := res_at g z in
+    let '(tx0, ty0, tx1, ty1) := tile_bbox g cx cy cz in
+    ~ (gx0 g + r <= tx0 + j * r /\ tx0 + (j + 1) * r <= gx1 g - r /\
+       gy0 g + r <= ty1 - (k + 1) * r /\ ty1 - k * r <= gy1 g - r).
+Proof. exact no_background_lemma. Qed.
